@@ -318,7 +318,26 @@ theorem hex_escape_and_continuation (h l : Char) (a b : Nat) (rest : List Char)
   · rw [unescape.eq_def]; simp [ha, hb, hlt]
   · rw [unescape.eq_def]; simp
 
-/-- concrete spellings incl. `\u{…}` with leading zeros and a continuation -/
+/-- T3c-u. `\\u{H…}`: for EVERY spelling of one to six hex digits (either
+    case, leading zeros) whose value is a Unicode scalar value, wherever the
+    escape stands in a string, `unescape` yields the character with that code
+    point followed by the rest; (surrogates and values above 10FFFF are
+    rejected: witnesses below). The digit-group `_` that rustc's escaper also
+    accepts inside the braces is modelled but not part of this statement. -/
+theorem unicode_escape (c : Char) (cs rest : List Char) (d : Nat) (hd : hexVal c = some d)
+    (hcs : ∀ x ∈ cs, (hexVal x).isSome = true) (hlen : cs.length ≤ 5)
+    (hv : isScalar (hexFold d cs) = true) :
+    unescape ('\\' :: 'u' :: '{' :: c :: (cs ++ '}' :: rest)) =
+      (unescape rest).map (Char.ofNat (hexFold d cs) :: ·) :=
+  unescape_unicode c cs rest d hd hcs hlen hv
+
+example : unescape "\\u{e9}\\u{1F600}\\u{00004a}".toList = some ['é', Char.ofNat 0x1F600, 'J'] ∧
+    unescape "\\u{D800}".toList = none ∧ unescape "\\u{110000}".toList = none ∧
+    unescape "\\u{0000041}".toList = none ∧ unescape "\\u{}".toList = none ∧
+    hexFold 14 ['9'] = 0xe9 := by
+  refine ⟨?_, ?_, ?_, ?_, ?_, by decide⟩ <;>
+    simp [unescape, hexVal, unicodeRest, isScalar, skipWs, simpleEscape]
+
 example : unescape "a\\x41\\u{0000e9}\\\n   \tb\\\\".toList = some "aAéb\\".toList := by
   simp [unescape, hexVal, unicodeRest, isScalar, skipWs, simpleEscape]
 
